@@ -366,6 +366,9 @@ func TestChain(t *testing.T) {
 	idx := 0
 	emit := func(kind string, c ChCase) {
 		if Mine(idx) {
+			if pre, err := json.Marshal(c); err == nil {
+				cw.Begin(idx, kind, pre)
+			}
 			coq, stats := runChCase(c, fmt.Sprint(idx))
 			repl, _ := json.Marshal(c)
 			cw.Put(Case{Idx: idx, Kind: kind, Coq: coq, Repl: repl, Stats: stats})
